@@ -469,7 +469,9 @@ def run_real(case, calc_factory=make_calc, hooks=None, snap=True):
     """run every trial on the real code; returns snapshots, per-trial before/after full states"""
     sim = Sim(case, calc_factory)
     out = {"snapshots": [], "outcomes": [], "before": [], "after": [], "rnglog": [], "consumed": [], "extra": []}
-    for tr in case["trials"]:
+    for k, tr in enumerate(case["trials"]):
+        if hooks and "pre" in hooks:
+            hooks["pre"](sim, k, out)       # e.g. a run boundary: the user edits the atoms, the next run() validates
         before = sim.full_state()
         if hooks and "before" in hooks:
             hooks["before"](sim, tr)
